@@ -39,6 +39,15 @@ M = [
  ('map-twice', 'src/ops/map.rs', '    self.observer.next((self.map)(value))', '    let v = (self.map)(value);\n    self.observer.next(v)', 'C03', 'silent'),
  ('filter-map-drop-some', 'src/ops/filter_map.rs', '    if let Some(v) = (self.f)(value) {\n      self.down_observer.next(v)\n    }', '    if let None = (self.f)(value) {\n    }', 'C03', 'fire'),
  ('collect-drops-item', 'src/ops/collect.rs', '    self.collection.extend(Some(value));', '    let _ = value;', 'C03', 'fire'),
+ # --- C03.S11 derived compositions
+ ('all-empty-false', 'src/observable.rs', '    DefaultIfEmptyOp::new(take, true)', '    DefaultIfEmptyOp::new(take, false)', 'C03', 'fire'),
+ ('element-at-off-by-one', 'src/observable.rs', '    TakeOp::new(self.skip(nth), 1)', '    TakeOp::new(self.skip(nth + 1), 1)', 'C03', 'fire'),
+ ('element-at-via-first', 'src/observable.rs', '    TakeOp::new(self.skip(nth), 1)', '    self.skip(nth).first()', 'C03', 'silent'),
+ ('max-uses-lt', 'src/observable.rs', '      Some(max) if max > v => Some(max),', '      Some(max) if max < v => Some(max),', 'C03', 'fire'),
+ ('max-ge', 'src/observable.rs', '      Some(max) if max > v => Some(max),', '      Some(max) if max >= v => Some(max),', 'C03', 'silent'),
+ ('count-adds-two', 'src/observable.rs', '    self.reduce(|acc, _v| acc + 1)', '    self.reduce(|acc, _v| acc + 2)', 'C03', 'fire'),
+ ('take-while-inclusive-flag', 'src/observable.rs', 'TakeWhileOp { source: self, callback, inclusive: true }', 'TakeWhileOp { source: self, callback, inclusive: false }', 'C03', 'fire'),
+ ('average-count-from-one', 'src/observable.rs', '    let start = (Item::default(), 0);', '    let start = (Item::default(), 1);', 'C03', 'fire'),
  # --- C03 envelopes
  ('last-flush-on-error', 'src/ops/last.rs', '  fn error(self, err: Err) {\n    self.observer.error(err)', '  fn error(mut self, err: Err) {\n    if let Some(v) = self.last.take() {\n      self.observer.next(v)\n    }\n    self.observer.error(err)', 'C03', 'fire'),
  ('default-if-empty-no-complete', 'src/ops/default_if_empty.rs', '    self.observer.complete()\n  }', '    if !self.is_empty {\n      self.observer.complete()\n    }\n  }', 'C03', 'fire'),
